@@ -49,6 +49,7 @@ def annOK : Ty → MH → Bool
   | .int, .intList _ => true
   | .int, .depIntRangeLo _ _ => true
   | .int, .depIntRangeHi _ _ => true
+  | .int, .depIntRangeSpan _ _ => true
   | .str, .varRange _ => true
   | .str, .depVarFrom _ => true
   | .str, .strSize _ _ al => al.all fun c => c.length == 1
@@ -505,6 +506,25 @@ theorem resolveDep_spec (mh mh' : MH) (deps : List (String × Val)) (s s1 : SynS
       · intro _ v _ hs
         cases v <;> simp [sat] at hs ⊢
         rw [hl]; simpa using hs
+  | depIntRangeSpan fw flo =>
+    simp only [resolveDep] at h
+    cases hw : lookupVal deps fw with
+    | none => simp only [hw] at h; exact absurd h (throwE_not_ok _ _ _ _)
+    | some x =>
+      cases hl : lookupVal deps flo with
+      | none =>
+        simp only [hw, hl] at h
+        cases x <;> exact absurd h (throwE_not_ok _ _ _ _)
+      | some y =>
+        simp only [hw, hl] at h
+        cases x <;> try (exact absurd h (throwE_not_ok _ _ _ _); done)
+        cases y <;> try (exact absurd h (throwE_not_ok _ _ _ _); done)
+        rw [SynM.pure_ok] at h; obtain ⟨rfl, _⟩ := h
+        refine ⟨rfl, rfl, ?_, ?_⟩
+        · intro b hb; cases b <;> simp_all [annOK]
+        · intro _ v _ hs
+          cases v <;> simp [sat] at hs ⊢
+          rw [hw, hl]; simpa using hs
   | depListSize f =>
     simp only [resolveDep] at h
     cases hl : lookupVal deps f with
@@ -573,7 +593,7 @@ def mhOK : MH → Bool
 theorem annOK_inv (b : Ty) (mh : MH) (h : annOK b mh = true) :
     mhOK mh = true ∧
     match mh with
-    | .intRange .. | .intList _ | .depIntRangeLo .. | .depIntRangeHi .. => b = .int
+    | .intRange .. | .intList _ | .depIntRangeLo .. | .depIntRangeHi .. | .depIntRangeSpan .. => b = .int
     | .varRange _ | .depVarFrom _ | .strSize .. => b = .str
     | .listSize .. | .depListSize _ => ∃ t, b = .list t ∧ noDeps t = true
     | .interval .. => b = .tuple [.int, .int]
@@ -1392,6 +1412,20 @@ theorem resolveDep_mhOK (mh mh' : MH) (deps : List (String × Val)) (s s1 : SynS
       simp only [hl] at h
       cases x <;> try (exact absurd h (throwE_not_ok _ _ _ _); done)
       rw [SynM.pure_ok] at h; obtain ⟨rfl, _⟩ := h; rfl
+  | depIntRangeSpan fw flo =>
+    simp only [resolveDep] at h
+    cases hw : lookupVal deps fw with
+    | none => simp only [hw] at h; exact absurd h (throwE_not_ok _ _ _ _)
+    | some x =>
+      cases hl : lookupVal deps flo with
+      | none =>
+        simp only [hw, hl] at h
+        cases x <;> exact absurd h (throwE_not_ok _ _ _ _)
+      | some y =>
+        simp only [hw, hl] at h
+        cases x <;> try (exact absurd h (throwE_not_ok _ _ _ _); done)
+        cases y <;> try (exact absurd h (throwE_not_ok _ _ _ _); done)
+        rw [SynM.pure_ok] at h; obtain ⟨rfl, _⟩ := h; rfl
   | depListSize f =>
     simp only [resolveDep] at h
     cases hl : lookupVal deps f with
